@@ -144,10 +144,11 @@ def run(ctx: core.Ctx) -> int:
     dist: Dict[str, int] = {}
     sizes = [150, 600] if not ctx.thorough else [150, 600, 2400]
     kinds = list(X.KINDS)
-    n_cases = ctx.n(40, 200)
+    n_cases = ctx.n(66, 240)
     for k in range(n_cases):
-        kind = kinds[k % len(kinds)] if k < len(kinds) else rng.choice(kinds)
-        as_hexital = k >= len(kinds) and rng.random() < 0.5
+        reg = k - (k + 1) // 3          # regular cases before this one (every third case is an always-None one)
+        kind = kinds[reg % len(kinds)] if reg < len(kinds) else rng.choice(kinds)
+        as_hexital = reg >= len(kinds) and k % 3 != 2 and rng.random() < 0.5
         specs = [X.gen_spec(rng, kind, inputs=("close",))]
         if as_hexital:
             for j in range(rng.randint(1, 3)):
@@ -163,13 +164,19 @@ def run(ctx: core.Ctx) -> int:
                 for key in ("a", "b"):
                     if s["analysis"].get(key) in ("a", "b"):
                         s["analysis"][key] = "close" if key == "a" else "open"
-        if not as_hexital and k % 5 == 4:
+        if not as_hexital and k % 3 == 2:
             # an indicator whose reading is legitimately None on every candle (its input never appears):
-            # stored None readings count as computed and must not be recomputed on each append
-            specs = [rng.choice([
-                {"kind": "AMORPH", "analysis": {"f": rng.choice(["highest", "lowest", "value_range"]), "name": "nosuch", "length": 4}, "kw": {}, "round_value": 4},
-                {"kind": "STDEV", "kw": {"period": 5, "input_value": "nosuch"}, "round_value": 4},
-                {"kind": "SMA", "kw": {"period": 5, "input_value": "nosuch"}, "round_value": 4}])]
+            # stored None readings count as computed and must not be recomputed on each append, and a
+            # window is counted in candles - a missing reading must not send a scan further back.
+            # Every windowed movement function takes its turn (round robin, so each run covers all).
+            templates = [{"kind": "AMORPH", "analysis": {"f": f_, "name": "nosuch", "length": 4}, "kw": {}, "round_value": 4}
+                         for f_ in ("highest", "lowest", "value_range", "highestbar", "lowestbar", "rising", "falling",
+                                    "mean_rising", "mean_falling")]
+            templates += [{"kind": "AMORPH", "analysis": {"f": f_, "a": "nosuch", "b": b_, "length": 3}, "kw": {}, "round_value": 4}
+                          for f_, b_ in (("cross", "nosuch"), ("crossover", "close"), ("crossunder", "nosuch"))]
+            templates += [{"kind": "STDEV", "kw": {"period": 5, "input_value": "nosuch"}, "round_value": 4},
+                          {"kind": "SMA", "kw": {"period": 5, "input_value": "nosuch"}, "round_value": 4}]
+            specs = [templates[(k // 3) % len(templates)]]
             kind = "always-None"
         base = X.gen_rows(rng, 2 * max(sizes), regime="walk", late=0)
         for r in base:
